@@ -1,7 +1,10 @@
 package props
 
 import (
+	"bytes"
 	"fmt"
+	"os"
+	"os/exec"
 	"strconv"
 	"strings"
 	"time"
@@ -135,7 +138,7 @@ func pairAll(c *core.Ctx, a, b string, legacy bool) {
 }
 
 // depth-growth family: (depth of the document, depth of the value added at its bottom)
-var growthDV = [][2]int{{100, 9999}, {1200, 9000}, {9000, 1500}, {5001, 5000}, {9999, 2}, {9999, 9999}, {9000, 5000}, {9998, 1}}
+var growthDV = [][2]int{{5000, 5000}, {5000, 5001}, {5001, 5000}, {100, 9999}, {1200, 9000}, {9000, 1500}, {5001, 5000}, {9999, 2}, {9999, 9999}, {9000, 5000}, {9998, 1}}
 
 const growthScripts = 6
 
@@ -156,6 +159,95 @@ func nested(kind, depth int) string {
 	default:
 		return strings.Repeat(`[{"a":`, depth/2) + "null" + strings.Repeat("}]", depth/2)
 	}
+}
+
+// ---------------------------------------------------------------- chained nesting growth
+//
+// Nothing bounds the nesting that move/add can assemble: every operation below moves the value built so
+// far into the innermost array of the next member, so paths stay short while the nesting grows by <depth>
+// per operation.  The result is encoded recursively.  Each case runs in a process of its own (a stack
+// overflow is a fatal error that no recover() sees) with Go's default stack limit.
+type chainCase struct {
+	pkg    string // v5 | legacy
+	pieces int
+	depth  int
+	kind   int // 0 arrays, 1 objects
+}
+
+var chainCases = []chainCase{
+	{"v5", 30, 1000, 0}, {"legacy", 30, 1000, 0}, {"v5", 12, 9999, 0}, {"v5", 20, 1000, 1}, {"legacy", 12, 1000, 1},
+	{"v5", 99, 1000, 0}, {"legacy", 60, 1000, 0},
+	{"v5", 700, 1000, 0}, {"legacy", 600, 1000, 0},
+}
+
+func buildChain(cc chainCase) (doc, patch string) {
+	var piece, tok string
+	if cc.kind == 0 {
+		piece, tok = strings.Repeat("[", cc.depth)+strings.Repeat("]", cc.depth), "/0"
+	} else {
+		piece, tok = strings.Repeat(`{"a":`, cc.depth-1)+"{}"+strings.Repeat("}", cc.depth-1), "/a"
+	}
+	var d, p strings.Builder
+	d.WriteByte('{')
+	p.WriteByte('[')
+	inner := strings.Repeat(tok, cc.depth-1)
+	for i := 0; i < cc.pieces; i++ {
+		if i > 0 {
+			d.WriteByte(',')
+		}
+		fmt.Fprintf(&d, `"p%d":%s`, i, piece)
+		if i+1 < cc.pieces {
+			if i > 0 {
+				p.WriteByte(',')
+			}
+			last := "/0"
+			if cc.kind == 1 {
+				last = "/x"
+			}
+			fmt.Fprintf(&p, `{"op":"move","from":"/p%d","path":"/p%d%s%s"}`, i, i+1, inner, last)
+		}
+	}
+	d.WriteByte('}')
+	p.WriteByte(']')
+	return d.String(), p.String()
+}
+
+// RunDeepChain is the body of `jpverif deepchain <i>`: one chained-growth case in a process of its own.
+func RunDeepChain(i int) int {
+	if i < 0 || i >= len(chainCases) {
+		return 2
+	}
+	cc := chainCases[i]
+	doc, patch := buildChain(cc)
+	var out []byte
+	var err, derr error
+	pn := mon.Try(func() {
+		if cc.pkg == "v5" {
+			var p jp.Patch
+			if p, derr = jp.DecodePatch([]byte(patch)); derr == nil {
+				out, err = p.Apply([]byte(doc))
+			}
+		} else {
+			var p jpl.Patch
+			if p, derr = jpl.DecodePatch([]byte(patch)); derr == nil {
+				out, err = p.Apply([]byte(doc))
+			}
+		}
+	})
+	switch {
+	case pn != nil:
+		fmt.Printf("RESULT panic %s\n", pn.Sig())
+	case derr != nil:
+		fmt.Printf("RESULT decode-error %s\n", clip(derr.Error(), 300))
+	case err != nil:
+		// (the text of such an error can itself be enormous: only its length and head are reported)
+		msg := ""
+		mon.Try(func() { msg = clip(err.Error(), 300) })
+		fmt.Printf("RESULT error %s\n", msg)
+	default:
+		fmt.Printf("RESULT ok bytes=%d\n", len(out))
+	}
+	return 0
 }
 
 func init() {
@@ -195,6 +287,54 @@ func init() {
 			return out
 		},
 		Families: []core.Family{
+			{Name: "chained-nesting-growth", Exhaustive: true, Serial: true, Guard: 900 * time.Second, Count: func(core.Tier) int { return len(chainCases) }, Run: func(c *core.Ctx, idx int) {
+				cc := chainCases[idx]
+				self, _ := os.Executable()
+				cmd := exec.Command(self, "deepchain", fmt.Sprint(idx))
+				var so, se bytes.Buffer
+				cmd.Stdout, cmd.Stderr = &so, &se
+				done := make(chan error, 1)
+				if err := cmd.Start(); err != nil {
+					c.Inconclusive("deepchain child could not be started: " + err.Error())
+					return
+				}
+				go func() { done <- cmd.Wait() }()
+				var werr error
+				select {
+				case werr = <-done:
+				case <-time.After(800 * time.Second):
+					cmd.Process.Kill()
+					<-done
+					c.Inconclusive(fmt.Sprintf("deepchain child %d did not finish within 800 s", idx))
+					return
+				}
+				c.Eval(1)
+				levels := cc.pieces * cc.depth
+				tail := se.String()
+				if len(tail) > 600 {
+					tail = tail[:600]
+				}
+				d := map[string]any{"package": cc.pkg, "document": fmt.Sprintf("an object of %d members, each %d nested %s", cc.pieces, cc.depth, []string{"arrays", "objects"}[cc.kind]),
+					"patch":        fmt.Sprintf("%d move operations, each moving the value assembled so far to the bottom of the next member (nesting reaches %d levels)", cc.pieces-1, levels),
+					"child_stdout": clip(so.String(), 400), "child_stderr_head": tail, "child_exit": fmt.Sprint(werr)}
+				switch {
+				case werr == nil && strings.HasPrefix(so.String(), "RESULT panic"):
+					c.Violation("chain:"+strings.TrimSpace(strings.TrimPrefix(so.String(), "RESULT ")), d)
+				case werr == nil && strings.HasPrefix(so.String(), "RESULT"):
+					c.Count("chain:returned")
+					c.Count("chain:" + strings.Fields(so.String())[1])
+				case strings.Contains(se.String(), "stack overflow") || strings.Contains(se.String(), "goroutine stack exceeds"):
+					var cands []string
+					if levels >= 200000 {
+						cands = []string{"F04"}
+					}
+					c.Violation("fatal:stack-overflow@"+cc.pkg+":Apply-encoding-a-result-nested-by-chained-moves", d, cands...)
+				default:
+					c.Violation("fatal:process-died@"+cc.pkg+":Apply-chained-moves", d)
+				}
+				c.Count("chain-cases")
+				c.Nontrivial("chain", fmt.Sprint(idx))
+			}},
 			{Name: "regression-witnesses", Exhaustive: true, Count: func(core.Tier) int { return len(c04Witnesses) }, Run: func(c *core.Ctx, idx int) {
 				w := c04Witnesses[idx]
 				for oi := 0; oi < 16; oi++ {
@@ -470,7 +610,7 @@ func init() {
 				if t == core.Thorough {
 					return len(growthDV) * 2 * growthScripts * 2
 				}
-				return 2 * 2 * growthScripts * 2
+				return 4 * 2 * growthScripts * 2
 			}, Run: func(c *core.Ctx, idx int) {
 				// operations assemble a value that is nested deeper than the decoder's limit of 10 000
 				// (a deep value added at the bottom of a deep document) and then copy it, move it,
@@ -491,6 +631,9 @@ func init() {
 					doc = strings.Repeat(`{"a":`, D) + "{}" + strings.Repeat("}", D)
 				}
 				bottom := strings.Repeat(tok, D)
+				if kind == 0 {
+					bottom = strings.Repeat(tok, D-1) // the innermost of D nested arrays
+				}
 				addDeep := OpText("add", bottom+app, "", val, true)
 				o := optSet{neg: true, esc: true}
 				var ops []string
